@@ -184,7 +184,17 @@ Wraps(x) == IF Kind(x) = "call" THEN {}      \* a call is not a value
                  \cup (IF Identifier(x) THEN {W_HFunc(x)} ELSE {})
 
 Level1 == UNION {Wraps(x) : x \in (IF Level = 1 THEN WrapBase ELSE Base)}
-Level2 == IF Level = 1 THEN {} ELSE UNION {Wraps(y) : y \in UNION {Wraps(x) : x \in WrapBase}}
+\* wrapped twice (Level 2 only): the sharpest look-alikes
+WrapBase2 ==
+  { TrueV, I1, S1, Np("int32", "int", "1"), Ty("A1@m1"), Ty("A1@m2"), Tup(<<I1, I2>>), Lst(<<I1, I2>>),
+    T("dict", <<>>, <<Pair(I1, I2), Pair(S1, I1)>>), T("dict", <<>>, <<Pair(S1, I1), Pair(I1, I2)>>),
+    T("frozenset", <<>>, <<I1, S1>>), T("frozenset", <<>>, <<S1, I1>>),
+    T("nt", <<"P@m1">>, <<I1, I2>>), T("nt", <<"P@m2">>, <<I1, I2>>), T("dc", <<"R@m1">>, <<I1, I2>>),
+    Arr("<i8", "1,0", "C", <<I2>>), Arr("<i8", "1,0", "view", <<I2>>),
+    AD("int", "1,0", "native", <<I2>>), AD("int", "1,0", "i32", <<I2>>),
+    Inst("I1@m1", "pos", I1, I2), Inst("I1@m1", "kw", I1, I2), Inst("I1@m2", "pos", I1, I2),
+    Inst("D1@m1", "pos", I1, I2), Inst("D1@m1", "kw", I1, I2), FMS(<<I1, I2>>), FMS(<<I2, I1>>) }
+Level2 == IF Level = 1 THEN {} ELSE UNION {Wraps(y) : y \in UNION {Wraps(x) : x \in WrapBase2}}
 Universe == Base \cup Level1 \cup Level2
 
 \* TLC does not cache constant definitions that depend on RECURSIVE operators, so the tables are computed once
@@ -206,7 +216,7 @@ Init == v = NoneV /\ d = 0 /\ adv = FALSE
 Make(Fam) == /\ d = 0
            /\ v' \in Fam
            /\ d' = 1
-           /\ adv' = (v' \in WrapBase)
+           /\ adv' = (v' \in (IF Level = 1 THEN WrapBase ELSE WrapBase2))
 \* one action per family of base constructors
 AScalar == d = 0 /\ Make(Scalars)
 ANumpyScalar == d = 0 /\ Make(NpScalars)
